@@ -34,6 +34,23 @@ func fk1Repro() bool {
 	return c == "internal" || c == "panic"
 }
 
+// fk2Repro reports whether add followed by remove of the same name in one
+// transaction still ends in an internal error (unreferenced slabs at commit).
+func fk2Repro() bool {
+	for _, eng := range host.Engines {
+		h := host.New()
+		tx := fmt.Sprintf(`transaction { prepare(a: auth(Contracts) &Account) {
+  a.contracts.add(name: "N", code: "%x".decodeHex())
+  a.contracts.remove(name: "N")
+} }`, "access(all) contract N {}")
+		r := h.Tx(tx, nil, []common.Address{host.Addr(1)}, host.Options{Engine: eng})
+		if c := host.Classify(r).Class; c == "internal" || c == "panic" {
+			return true
+		}
+	}
+	return false
+}
+
 func contractEvents(evs []cadence.Event) []capgen.CEvent {
 	var out []capgen.CEvent
 	for _, e := range evs {
@@ -80,8 +97,8 @@ func checkContractStep(h *host.Host, signers []common.Address, st capgen.Contrac
 		if info.Class != "user" {
 			return "transaction failed with a non-user error: " + outcome(r)
 		}
-		if e.ErrContains != "" && !strings.Contains(r.Err.Error(), e.ErrContains) {
-			return fmt.Sprintf("transaction failed for another reason than %q: %s", e.ErrContains, outcome(r))
+		if !errMatches(r, e.ErrContains) {
+			return fmt.Sprintf("transaction failed for another reason than %q: %s (error types %v)", e.ErrContains, outcome(r), info.Types)
 		}
 	} else if info.Class != "ok" {
 		return fmt.Sprintf("transaction failed, model says it succeeds: %s; logs so far %q", outcome(r), r.Logs)
@@ -118,15 +135,20 @@ func checkContractStep(h *host.Host, signers []common.Address, st capgen.Contrac
 
 func TestC26(t *testing.T) {
 	rec := evid.Start(t, "C26", ruleC26)
-	avoidFK1 := rec.Known("FK1")
-	if avoidFK1 {
+	avoid := map[string]bool{}
+	if rec.Known("FK1") {
+		avoid["FK1"] = true
 		rec.ReportKnown("FK1", fk1Repro())
+	}
+	if rec.Known("FK2") {
+		avoid["FK2"] = true
+		rec.ReportKnown("FK2", fk2Repro())
 	}
 	rapid.Check(t, func(rt *rapid.T) {
 		hist := capgen.GenContractHistory(rapidChooser{rt}, capgen.ContractGenOptions{
-			MaxActions:          25,
-			AvoidBorrowAfterAdd: avoidFK1,
-			OnAvoid:             rec.Excluded,
+			MaxActions: 25,
+			Avoid:      avoid,
+			OnAvoid:    rec.Excluded,
 		})
 		var signers []common.Address
 		for _, a := range hist.Accts {
